@@ -6,11 +6,13 @@ from harness.common import struct_hash
 from harness.ns import QNAMES
 
 ID = "C19"
-LEAN_MODULES = ["Pypika.Props.C19"]
+LEAN_MODULES = ["Pypika.Props.C19", "Pypika.Props.Builder"]
 TRACE_BUILDER = True   # builder calls made by this check are also run through Pypika.B.step (harness/trace.py)
 THEOREMS = ["Pypika.C19.empty_left", "Pypika.C19.empty_right", "Pypika.C19.invert_empty", "Pypika.C19.all_eq_fold",
             "Pypika.C19.any_eq_fold", "Pypika.C19.fold_nonempty", "Pypika.C19.insert_empty", "Pypika.C19.where_never_empty",
-            "Pypika.C19.where_all"]
+            "Pypika.C19.where_all",
+            # concrete builder model (Builder.lean, tied call by call through harness/trace.py)
+            "Pypika.B.where_empty_neutral", "Pypika.B.having_empty_neutral", "Pypika.B.run_drop_neutral", "Pypika.B.where_accumulates"]
 AGREE = ["Pypika.Agree.bool_text", "Pypika.Agree.needs_brackets"]
 TRUSTED = ["Python operator dispatch (`a & b` calls type(a).__and__; `crit &= t` rebinds)"]
 RULE = ("criterion lists of length 0-8 with empty criteria at arbitrary positions (all subsets of positions up to length 5 in "
